@@ -524,7 +524,16 @@ func c08Root(w *W, st ref.Stamp, full bool) {
 	}
 	// Solar + Lunar and everything below (EightChar sect 2 by default)
 	wrap("Solar", func() { cw.reset(); cw.walk(reflect.ValueOf(solarOf(st)), 1) })
-	wrap("Lunar", func() { cw.reset(); cw.walk(reflect.ValueOf(solarOf(st).GetLunar()), 2) })
+	wrap("Lunar", func() {
+		cw.reset()
+		l := solarOf(st).GetLunar()
+		before := digest1(l)
+		cw.walk(reflect.ValueOf(l), 2)
+		// read-only accessors must leave the object as it was: the same accessors give the same values after the full walk
+		if after := digest1(l); after != before {
+			w.Violate("stable", "Lunar/"+key, fmt.Sprintf("accessors of the Lunar at %s changed after all its accessors (and those of the objects it returns) were called once: %s", key, diffDigests(before, after)), map[string]string{"root": key})
+		}
+	})
 	w.Distinct(2)
 	// EightChar under sect 1 (fresh object: SetSect mutates the chart shared through the Lunar)
 	wrap("EightChar sect 1", func() {
